@@ -51,7 +51,7 @@ type interpreter struct {
 	top                *frame
 	depth              int
 	skipGo             map[string]bool
-	overrides          map[string]*ssa.Function
+	overrides          map[string]value
 	goQueue            []func()
 }
 
@@ -96,7 +96,7 @@ func newInterpreter(prog *ssa.Program, w *worker) *interpreter {
 		initDep:     map[*ssa.Global]bool{},
 		initScanned: map[*ssa.Package]bool{},
 		skipGo:      map[string]bool{},
-		overrides:   map[string]*ssa.Function{},
+		overrides:   map[string]value{},
 	}
 	if runtimePkg := prog.ImportedPackage("runtime"); runtimePkg != nil {
 		i.runtimeErrorString = runtimePkg.Type("errorString").Object().Type()
@@ -199,7 +199,7 @@ func (i *interpreter) runInits(cfg Config) (msg string) {
 		}
 	}()
 	i.w.item = &workItem{}
-	i.w.m = model{}
+	i.w.m = newModel()
 	call(i, nil, token.NoPos, cfg.Pkg.Func("init"), nil)
 	return ""
 }
